@@ -35,7 +35,39 @@ func (x *Exec) subRefSt(st *State, base *Term, owner, name string) *Term {
 	if c := st.class(base); c != 0 {
 		st.setClass(r, c)
 	}
+	if st.stack[base.S] {
+		st.markStack(r)
+	}
 	return r
+}
+
+// markStack records a reference into a non-escaping local variable (ssa.Alloc with Heap == false):
+// no callee can reach it, so a whole-heap havoc leaves what is cached about it intact.
+func (s *State) markStack(t *Term) {
+	if s.stack == nil {
+		s.stack = map[string]bool{}
+	}
+	s.stack[t.S] = true
+}
+
+// havocKeepStack replaces the cache of a havocked array by the entries at non-escaping locals.
+func (x *Exec) havocKeepStack(st *State, name string, oldArr, newArr *Term) {
+	old := st.fwd[name]
+	if old == nil || old.arr != oldArr.S {
+		delete(st.fwd, name)
+		return
+	}
+	c := &fwdCache{arr: newArr.S, ent: map[string]*Term{}}
+	for k, v := range old.ent {
+		if st.stack[k] {
+			c.ent[k] = v
+		}
+	}
+	if len(c.ent) == 0 {
+		delete(st.fwd, name)
+		return
+	}
+	st.fwd[name] = c
 }
 
 type fwdCache struct {
@@ -67,9 +99,16 @@ func (x *Exec) heapStoreFwd(st *State, name string, idx, v *Term) {
 	if old != nil && old.arr == arr.S {
 		c.base = old.base
 		c.allFresh = old.allFresh && fresh
+		ci := st.class(idx)
 		for k, val := range old.ent {
-			// keep only entries at references provably distinct from idx: two different fresh roots
-			if k != idx.S && fresh && st.refClass[k] == refFresh && isAllocRoot(st, k) && isAllocRoot(st, idx.S) {
+			if k == idx.S {
+				continue
+			}
+			ck := st.refClass[k]
+			// keep only entries at references provably distinct from idx: two different fresh roots,
+			// or one reference into fresh memory and one into memory that existed at entry
+			if (fresh && ck == refFresh && isAllocRoot(st, k) && isAllocRoot(st, idx.S)) ||
+				(ci != 0 && ck != 0 && ci != ck) {
 				c.ent[k] = val
 			}
 		}
